@@ -1,0 +1,36 @@
+//go:build verif
+
+// Accessors for the verification harness in /verif (build tag "verif").
+package clients
+
+import (
+	"sort"
+	"time"
+)
+
+type VerifEntry struct {
+	IP          uint32
+	Duid        []byte
+	LeasedUntil time.Time
+	Permanent   bool
+	Keys        int // number of map keys pointing at this entry
+}
+
+// VerifDump lists the distinct entries reachable from the key map, by address.
+func (cx *Clients) VerifDump() []VerifEntry {
+	seen := map[*client]int{}
+	for _, c := range cx.m {
+		seen[c]++
+	}
+	var out []VerifEntry
+	for c, n := range seen {
+		out = append(out, VerifEntry{IP: uint32(c.ip), Duid: append([]byte{}, c.duid...), LeasedUntil: c.leasedUntil, Permanent: c.permanent, Keys: n})
+	}
+	sort.Slice(out, func(i, j int) bool {
+		if out[i].IP != out[j].IP {
+			return out[i].IP < out[j].IP
+		}
+		return string(out[i].Duid) < string(out[j].Duid)
+	})
+	return out
+}
